@@ -173,7 +173,7 @@ impl Prop for C02 {
         Ok(())
     }
     fn rule(&self) -> String {
-        "generated (site |lat|<=60, GMT offset within 6 h of lon/15, method, weather none/range/corners/default, date mixture). Non-trivial = Shurooq and Maghrib both reported and neither within 15 min of the civil-day seam, i.e. both altitude clauses were evaluated; distinct by hash of the case".into()
+        "generated (site |lat|<=60, GMT offset within 6 h of lon/15, method, weather none/range/corners/default, date mixture). One case in 9 has its local midnight within 12 minutes of the RA wrap; every case is preceded by a priming call with a sibling input. Non-trivial = Shurooq and Maghrib both reported and neither within 15 min of the civil-day seam, i.e. both altitude clauses were evaluated; distinct by hash of the case".into()
     }
     fn assumptions(&self) -> Vec<String> {
         vec![
